@@ -22,6 +22,8 @@ L12Q == {<<"nmt", 1>>, <<"nmt", 128>>, <<"tick">>, <<"trig", 1>>, <<"sync", 128>
          <<"cfg", "evt", TRUE, 1, 3>>, <<"cfg", "cid", TRUE, 1, <<133, 1, 0, 192>>>>, <<"cfg", "cid", TRUE, 1, <<133, 1, 0, 64>>>>}
 P12 == << <<"tick">>, <<"tick">>, <<"tick">>, <<"tick">>, <<"trig", 1>>, <<"wr", "a", <<33>>>>, <<"tick">>, <<"tick">>, <<"tick">>, <<"tick">>, <<"tick">>, <<"sync", 128>>, <<"sync", 128>>, <<"sync", 128>>,
           <<"nmt", 128>>, <<"nmt", 1>>, <<"tick">>, <<"tick">>, <<"tick">>, <<"tick">>, <<"tick">>, <<"wr", "a", <<34>>>> >>
+P12B == << <<"nmt", 128>>, <<"nmt", 1>>, <<"pool">>, <<"trig", 1>>, <<"trig", 1>>, <<"tick">>, <<"pool">>, <<"trig", 1>>, <<"tick">>, <<"tick">>, <<"tick">>, <<"tick">>, <<"pool">> >>
+PNone == <<>>
 \* ---- C20 (PDO / SYNC part): SYNC producer on (2 ms), event TPDO with timers, synchronous RPDO; resets in every state
 TC20 == << TC(FALSE, 389, 254, 20, 3, 1, <<M("a", 8), Z4, Z4, Z4>>) >>
 RC20 == << RC(FALSE, 517, 1, 1, <<M("b", 8), Z4, Z4, Z4>>) >>
